@@ -98,20 +98,16 @@ def scn_grad(contract, factory, args, pick=None, extra=None):
             for d in mk.decls:
                 names += [d.name] if d.shape == () else ["%s[%s]" % (d.name, ",".join(map(str, ix))) for ix in np.ndindex(*d.shape)]
             seen = nf.variables(S_true)
-            lhs, rhs, nz = [], [], 0
+            out, nz = [], 0
             for v in names:
                 if v not in seen:
-                    lhs.append(nf.ZERO)
-                    rhs.append(nf.ZERO)
                     continue
                 d_true = nf.diff(S_true, v)
                 d_auto = nf.unwrap(nf.diff(S, v))
-                lhs.append(d_auto)
-                rhs.append(d_true)
+                out.append(("eq", "d/d %s: autograd-visible = true derivative" % v, [d_auto], [d_true]))
                 if not nf.is_zero(d_true):
                     nz += 1
-            out = [("eq", "autograd_visible_derivative_is_true_derivative", lhs, rhs),
-                   ("true", "value_depends_on_inputs", nz > 0, "no input variable influences the value")]
+            out.append(("true", "value_depends_on_inputs", nz > 0, "no input variable influences the value"))
             return out
         # concrete: real autograd vs central finite differences
         names = []
@@ -131,7 +127,7 @@ def scn_grad(contract, factory, args, pick=None, extra=None):
         if not isinstance(tot, torch.Tensor) or not tot.requires_grad:
             return [("eq", "autograd_visible_derivative_is_true_derivative", [0.0], [0.0]), ("true", "value_depends_on_inputs", False, "value does not require grad")]
         tot.backward()
-        lhs, rhs = [], []
+        out = []
         h = 1e-6
 
         def f(env):
@@ -154,9 +150,9 @@ def scn_grad(contract, factory, args, pick=None, extra=None):
                 # finite differences are accurate to ~1e-5 only: snap to the autograd value when consistent
                 if abs(fd - ag) <= 1e-4 * max(1.0, abs(fd)):
                     fd = ag
-                lhs.append(ag)
-                rhs.append(fd)
-        return [("eq", "autograd_visible_derivative_is_true_derivative", lhs, rhs), ("true", "value_depends_on_inputs", True)]
+                out.append(("eq", "d/d %s: autograd-visible = true derivative" % key, [ag], [fd]))
+        out.append(("true", "value_depends_on_inputs", True))
+        return out
     return scn
 
 
@@ -237,21 +233,22 @@ def obligations(tier, seed):
                                funcs=FUNCS, seed=seed, **kw))
 
     import contracts.C01 as C01
-    P4 = {"P": lambda t, i, j: C01._pfun(t, i, j, 4)}
+    P4 = {"P": lambda t, i, j: C01._pfun(t, i, j, 4),
+          "D0_P": lambda t, i, j: (C01._pfun(t + 1e-6, i, j, 4) - C01._pfun(t - 1e-6, i, j, 4)) / 2e-6}
     # tree likelihood: pruning (plain and rescaled) and the whole pipeline
     add("C12.likelihood.prune[((0,1),2)]", "C01", "scn_prune", ("partials", "((0,1),2)", 2, 2, (), 1))
     add("C12.likelihood.prune[((0,1),(2,3))]", "C01", "scn_prune", ("partials", "((0,1),(2,3))", 2, 1, (), 1))
     add("C12.likelihood.rescaled[((0,1),2)]", "C03", "scn_rescaled", ("partials", "((0,1),2)", 2, 2, (), 1), "rescaled_equals_plain")
     add("C12.likelihood.rescaled[(0,(1,(2,3)))]", "C03", "scn_rescaled", ("partials", "(0,(1,(2,3)))", 2, 1, (), 1), "rescaled_equals_plain")
-    add("C12.likelihood.model[unrooted,weibull]", "C01", "scn_model", ("((A,B),C);", ["C", "A", "B"], ["AC", "CG", "GT"], [0.0, 0.0, 0.0], "unrooted", None, "weibull", 2, False, True, ()), fns=P4)
-    add("C12.likelihood.model[time,strict,invariant]", "C01", "scn_model", ("((A,B),C);", ["A", "B", "C"], ["AC", "CG", "GT"], [0.0, 1.0, 0.0], "time", "strict", "invariant", 2, False, True, ()), fns=P4)
-    add("C12.likelihood.model[time,simple,tipstates]", "C01", "scn_model", ("((A,B),C);", ["A", "B", "C"], ["AC", "CN", "GT"], [0.0, 1.0, 2.0], "time", "simple", "constant", 1, True, True, ()), fns=P4)
+    add("C12.likelihood.model[unrooted,weibull]", "C01", "scn_model", ("((A,B),C);", ["C", "A", "B"], ["AC", "CG", "GT"], [0.0, 0.0, 0.0], "unrooted", None, "weibull", 2, False, True, (), "JC69"))
+    add("C12.likelihood.model[time,strict,invariant]", "C01", "scn_model", ("((A,B),C);", ["A", "B", "C"], ["AC", "CG", "GT"], [0.0, 1.0, 0.0], "time", "strict", "invariant", 2, False, True, (), "JC69"))
+    add("C12.likelihood.model[time,simple,tipstates]", "C01", "scn_model", ("((A,B),C);", ["A", "B", "C"], ["AC", "CN", "GT"], [0.0, 1.0, 2.0], "time", "simple", "constant", 1, True, True, (), "JC69"))
     # site models, rate matrices
     add("C12.site.weibull[K=4,inv,mu]", "C05", "scn_weibull", (4, (), True, True), "mean_rate_is_mu")
-    add("C12.subst.q.HKY", "C04", "scn_q", ("HKY", (), ()), "rows_sum_to_zero")
+    add("C12.subst.q.HKY", "C04", "scn_q", ("HKY", (), ()), "detailed_balance")
     # node-height transforms: heights and Jacobian terms
+    add("C12.nodeheight.ratios.ladj[((0,1),(2,3))]", "C07", "scn_nodeheight", ("((0,1),(2,3))", "hetero", "ratios", ()), "tree_model_call_returns_ladj")
     for kind in ("ratios", "shifts"):
-        add("C12.nodeheight.%s.ladj[((0,1),(2,3))]" % kind, "C07", "scn_nodeheight", ("((0,1),(2,3))", "hetero", kind, ()), "tree_model_call_returns_ladj")
         add("C12.nodeheight.%s.heights[(0,(1,(2,3)))]" % kind, "C06", "scn_ratio" if kind == "ratios" else "scn_diff",
             ("(0,(1,(2,3)))", "ties", ()) if kind == "ratios" else ("(0,(1,(2,3)))", "ties", (), 0), "branch_is_parent_minus_child")
     # coalescents
